@@ -42,6 +42,9 @@ def _switches(fn):
                 c = strip(ds[0], casts=True)
         if c['k'] == 'MemberExpr' and 'table_' in show(c):
             out.append((n, show(c)))
+        elif c['k'] == 'ArraySubscriptExpr' and strip(kids(c)[0], casts=True)['k'] == 'MemberExpr' and 'table_' in show(c):
+            # per-operand kind: switch (table_x[n].operand[r])
+            out.append((n, show(strip(kids(c)[0], casts=True))))
     return out
 
 
